@@ -3,6 +3,7 @@
    what that property's statements need, so that a change which breaks one property's proof leaves the
    others' theorems checkable. *)
 From NTRIP Require Import Base Bits Time Classify Frame FrameSpec FrameProofs DetermProofs.
+From NTRIP Require Display.
 
 (* ===================== C15 (state independence) ===================== *)
 (* Everything GetMessage reports about a frame except the UTC time and the start of week -
@@ -23,3 +24,14 @@ Theorem C15_stream_state_independent : forall h1 h2 input,
 Proof. exact stream_state_independent. Qed.
 Print Assumptions C15_stream_state_independent.
 
+
+(* Display (Display.v): displaying a message again gives the same text and leaves the message exactly as
+   the first display left it (the decoded form is cached; a decoder error is reproduced); the raw bytes
+   and the type are never changed. *)
+Theorem C15_display_idempotent : forall (L : Type) title_lines frame_lines err_lines other_lines station_lines msm_lines
+    (m : Display.dmsg L) t m1,
+  Display.string L title_lines frame_lines err_lines other_lines station_lines msm_lines m = Ok (t, m1) ->
+  Display.string L title_lines frame_lines err_lines other_lines station_lines msm_lines m1 = Ok (t, m1) /\
+  Display.d_raw L m1 = Display.d_raw L m /\ Display.d_type L m1 = Display.d_type L m.
+Proof. exact Display.string_idempotent. Qed.
+Print Assumptions C15_display_idempotent.
